@@ -26,12 +26,12 @@ CONTRACTS = {
                                        "C14": ["value", "sign", "propositions", "variable"], "C18": ["value", "sign", "propositions", "variable", "generated_id"]},
                          "why": "sign default = + iff value > 0; sign in {-1,+1} or raise; children = fresh sorted list, "
                                 "strings become boolean variables; own variable bounds in {(0,0),(0,1),(1,1)}"},
-    "AtMost.__init__": {"props": ["C04", "C16"], "why": "at most k  ==  -sum >= -k"},
+    "AtMost.__init__": {"props": ["C04", "C16", "C18"], "why": "at most k  ==  -sum >= -k"},
     "All.__init__": {"props": ["C04", "C05", "C14", "C16", "C18"], "why": "conjunction == sum >= number of distinct children"},
-    "Any.__init__": {"props": ["C04", "C14", "C16"], "why": "disjunction == sum >= 1"},
-    "Xor.__init__": {"props": ["C04", "C14", "C16"], "why": "exactly one == (sum >= 1) and (at most 1)"},
+    "Any.__init__": {"props": ["C04", "C14", "C16", "C18"], "why": "disjunction == sum >= 1"},
+    "Xor.__init__": {"props": ["C04", "C14", "C16", "C18"], "why": "exactly one == (sum >= 1) and (at most 1)"},
     "XNor.__init__": {"props": ["C04", "C16"], "why": "not exactly one == not(sum >= 1) or not(at most 1)"},
-    "Imply.__init__": {"props": ["C04", "C16"], "why": "c -> q == not(c) or q; atoms are wrapped in All() before negation"},
+    "Imply.__init__": {"props": ["C04", "C16", "C18"], "why": "c -> q == not(c) or q; atoms are wrapped in All() before negation"},
     "Not.__new__": {"props": ["C04", "C05", "C16"], "why": "Not(p) == negate(p), atoms wrapped in All()"},
     "Imply.from_cicJE": {"props": ["C04"], "why": "rule-type table, relation table (default ALL), 1-vs-many wrapping"},
     "from_json": {"props": ["C04", "C16"], "why": "type string dispatches to the class of that name"},
